@@ -5,7 +5,7 @@ import json, sys, re
 prop = sys.argv[1]
 RULES = [
     (r'xml:lang|xml:space|lyric-language|undeclared', "attributes the schema references as xml:lang / xml:space are handled under the un-prefixed names 'lang' / 'space' (accepted, serialised without the xml: prefix; the qualified names are rejected; lyric-language loses use=required; xml:space has no resolvable type: KeyError('type'))"),
-    (r'/name(/|$|@)', "the schema attribute 'name' collides with the read-only Python property XMLElement.name: dot assignment raises AttributeError('property ... has no setter')"),
+    (r"/name(/|$|@)|property 'name'", "the schema attribute 'name' collides with the read-only Python property XMLElement.name: dot assignment raises AttributeError('property ... has no setter')"),
     (r'xlink:|/link(/|$|@)|/opus(/|$|@)|/part-link(/|$|@)', "xlink:* attribute references are never resolved (NotImplementedError(ref) is built but not raised): every attribute operation on link / opus / part-link elements fails with AttributeError about None"),
     (r'source|image', "xs:anyURI has no simple-type class: validating the 'source' attribute of image / credit-image raises NameError"),
     (r'space|text-formatting', "xml:space has an anonymous simple type: XSDAttribute.type_ raises KeyError('type')"),
